@@ -190,6 +190,8 @@ class World:
             ev["exc"] = exc_info(e)
             ev["exc"]["ldap"] = False
         if not build_failed:
+            if m in ("bind", "bind_simple", "bind_sasl") and se.role == "c" and getattr(se.real, "version", 3) != a.get("_version", 3):
+                se.real.version = a.get("_version", 3)  # public attribute: the version the next BindRequest names
             try:
                 ret = getattr(se.real, m)(*args, **kwargs)
                 ev["accepted"] = True
@@ -303,8 +305,15 @@ class World:
         del se.inbox[:n]
         ev["data"] = data
         bufkind = op.get("buf", "bytes")
+        released = getattr(se, "held_views", [])
+        se.held_views = []
         if bufkind == "bytearray":
             arg = bytearray(data)
+        elif bufkind == "bytearray_viewed":
+            # recv_into style: the caller reads into its own bytearray through a memoryview that stays alive until after the
+            # following read (a bytearray with a live export cannot be resized by anybody)
+            arg = bytearray(data)
+            se.held_views = [memoryview(arg)]
         elif bufkind == "memoryview":
             backing = bytearray(data)
             arg = memoryview(backing)
@@ -381,8 +390,10 @@ class World:
             ev["exc_obj_request"] = getattr(e, "request", None)
             resp = getattr(e, "response", None)
             ev["exc_response"] = bytes(resp) if isinstance(resp, (bytes, bytearray, memoryview)) else resp
-        if op.get("scribble") and bufkind in ("bytearray", "memoryview"):
-            tgt = arg if bufkind == "bytearray" else backing
+        for v in released:
+            v.release()
+        if op.get("scribble") and bufkind in ("bytearray", "bytearray_viewed", "memoryview"):
+            tgt = backing if bufkind == "memoryview" else arg
             tgt[:] = b"\xee" * len(tgt)
             ev["scribbled"] = len(tgt) > 0
         ev["st_after"] = state_name(se.real)
